@@ -27,35 +27,39 @@ Init == /\ ts = [t \in T |-> IF t = 1 THEN "R" ELSE "none"]
         /\ ops = [t \in T |-> K] /\ mut = [t \in T |-> FALSE] /\ init = 0 /\ last = [t |-> 0, a |-> "init"]
 
 S(f, t, v) == [f EXCEPT ![t] = v]
+\* operation budget per thread; K = 0 means unbounded (trace validation)
+HasOps(t) == K = 0 \/ ops[t] > 0
+Spend(t) == ops' = IF K = 0 THEN ops ELSE S(ops, t, ops[t] - 1)
+NoOpsLeft(t) == K = 0 \/ ops[t] = 0
 Go(t, p) == pc' = S(pc, t, p)
 Log(t, a) == last' = [t |-> t, a |-> a]
 Active(t) == ts[t] \in {"R", "SR"}
 InReg(t) == \E i \in 1..Len(reg) : reg[i] = t
 
 \* ---------------- harness-level operations chosen at "idle" ----------------
-MutOn(t) == /\ pc[t] = "idle" /\ ~mut[t] /\ ops[t] > 0 /\ Active(t)
+MutOn(t) == /\ pc[t] = "idle" /\ ~mut[t] /\ HasOps(t) /\ Active(t)
             /\ mut' = S(mut, t, TRUE) /\ Log(t, "mut_on")
             /\ UNCHANGED <<ts, reg, lock, armed, stopped, waitW, waitN, woken, rt, pc, cont, idx, running, ops, init>>
 MutOff(t) == /\ pc[t] = "idle" /\ mut[t]
-             /\ mut' = S(mut, t, FALSE) /\ ops' = S(ops, t, ops[t] - 1) /\ Log(t, "mut_off")
+             /\ mut' = S(mut, t, FALSE) /\ Spend(t) /\ Log(t, "mut_off")
              /\ UNCHANGED <<ts, reg, lock, armed, stopped, waitW, waitN, woken, rt, pc, cont, idx, running, init>>
 \* a poll that sees a request (a poll that sees Running is a no-op and not modelled)
 Poll(t) == /\ pc[t] = "idle" /\ ~mut[t] /\ ts[t] = "SR" /\ Go(t, "slow_swap") /\ Log(t, "poll")
            /\ UNCHANGED <<ts, reg, lock, armed, stopped, waitW, waitN, woken, rt, cont, idx, running, ops, mut, init>>
-Native(t) == /\ pc[t] = "idle" /\ ~mut[t] /\ ops[t] > 0 /\ Active(t)
-             /\ ops' = S(ops, t, ops[t] - 1) /\ Go(t, "park") /\ cont' = S(cont, t, "native_body") /\ Log(t, "native")
+Native(t) == /\ pc[t] = "idle" /\ ~mut[t] /\ HasOps(t) /\ Active(t)
+             /\ Spend(t) /\ Go(t, "park") /\ cont' = S(cont, t, "native_body") /\ Log(t, "native")
              /\ UNCHANGED <<ts, reg, lock, armed, stopped, waitW, waitN, woken, rt, idx, running, mut, init>>
 NativeBody(t) == /\ pc[t] = "native_body" /\ Go(t, "unpark") /\ cont' = S(cont, t, "idle") /\ Log(t, "native_body")
                  /\ UNCHANGED <<ts, reg, lock, armed, stopped, waitW, waitN, woken, rt, idx, running, ops, mut, init>>
-Stw(t) == /\ pc[t] = "idle" /\ ~mut[t] /\ ops[t] > 0 /\ Active(t)
-          /\ ops' = S(ops, t, ops[t] - 1) /\ Go(t, "park") /\ cont' = S(cont, t, "stw_lock") /\ Log(t, "stw")
+Stw(t) == /\ pc[t] = "idle" /\ ~mut[t] /\ HasOps(t) /\ Active(t)
+          /\ Spend(t) /\ Go(t, "park") /\ cont' = S(cont, t, "stw_lock") /\ Log(t, "stw")
           /\ UNCHANGED <<ts, reg, lock, armed, stopped, waitW, waitN, woken, rt, idx, running, mut, init>>
-Spawn(t) == /\ pc[t] = "idle" /\ ~mut[t] /\ ops[t] > 0 /\ Active(t)
+Spawn(t) == /\ pc[t] = "idle" /\ ~mut[t] /\ HasOps(t) /\ Active(t)
             /\ \E c \in T : /\ pc[c] = "unborn" /\ \A d \in T : pc[d] = "unborn" => c <= d
                             /\ pc' = [pc EXCEPT ![t] = "park", ![c] = "reserved"] /\ idx' = S(idx, t, c)
-            /\ ops' = S(ops, t, ops[t] - 1) /\ cont' = S(cont, t, "spawn_lock") /\ Log(t, "spawn")
+            /\ Spend(t) /\ cont' = S(cont, t, "spawn_lock") /\ Log(t, "spawn")
             /\ UNCHANGED <<ts, reg, lock, armed, stopped, waitW, waitN, woken, rt, running, mut, init>>
-Exit(t) == /\ pc[t] = "idle" /\ ~mut[t] /\ ops[t] = 0 /\ Active(t)
+Exit(t) == /\ pc[t] = "idle" /\ ~mut[t] /\ NoOpsLeft(t) /\ Active(t)
            /\ Go(t, "park") /\ cont' = S(cont, t, "exit_lock") /\ Log(t, "exit")
            /\ UNCHANGED <<ts, reg, lock, armed, stopped, waitW, waitN, woken, rt, idx, running, ops, mut, init>>
 
